@@ -2,9 +2,15 @@ package query
 
 // Replay driver for the Worker part of the WorkManager family (C12): paths of
 // specs/WorkManager/Worker.tla are executed against the REAL worker.Run with
-// a mock Peer, millisecond job timeouts and an UNBUFFERED results channel
-// that the driver reads like the dispatcher does (and stops reading in the
-// QuitDuring steps, like a dispatcher that has already returned).
+// a mock Peer and an UNBUFFERED results channel that the driver reads like
+// the dispatcher does (and stops reading in the QuitDuring steps, like a
+// dispatcher that has already returned).
+//
+// Every path runs inside its own testing/synctest bubble: time is virtual
+// (it advances only when every goroutine of the bubble is durably blocked),
+// so "half a job timeout passes" (Tick) is exact and nothing depends on the
+// speed of the machine.  synctest.Wait() is the quiescence signal: after it
+// the worker has done everything it can do without further input.
 
 import (
 	"bufio"
@@ -12,9 +18,9 @@ import (
 	"os"
 	"runtime"
 	"strings"
-	"sync"
 	"sync/atomic"
 	"testing"
+	"testing/synctest"
 	"time"
 
 	"github.com/btcsuite/btcd/wire/v2"
@@ -58,16 +64,18 @@ type wkPathOut struct {
 	Error   string      `json:"error,omitempty"`
 }
 
+// wkTimeout is the (virtual) timeout of every job: the dispatcher's
+// minQueryTimeout.
+const wkTimeout = minQueryTimeout
+
 type wkPeer struct {
 	msgs   chan wire.Message
 	disc   chan struct{}
 	queued int32
-	qsig   chan struct{}
 }
 
 func (p *wkPeer) QueueMessageWithEncoding(wire.Message, chan<- struct{}, wire.MessageEncoding) {
 	atomic.AddInt32(&p.queued, 1)
-	p.qsig <- struct{}{}
 }
 func (p *wkPeer) SubscribeRecvMsg() (<-chan wire.Message, func()) { return p.msgs, func() {} }
 func (p *wkPeer) Addr() string                                    { return "wk" }
@@ -78,77 +86,84 @@ type wkEnv struct {
 	w            *worker
 	results      chan *jobResult
 	quit, done   chan struct{}
+	quitClosed   bool
 	res          []int
 	handled, fin int32
-	hsig         chan struct{}
 	early        int
 	working      bool
-	short        bool
 	tArm         time.Time
-	T, hang      time.Duration
 	cancel, ic   chan struct{}
-	timing       bool
 	gate         chan struct{} // when set, the finishing handler waits here
 }
 
-func (e *wkEnv) observe() wkObs {
+func (e *wkEnv) exited() bool {
+	select {
+	case <-e.done:
+		return true
+	default:
+		return false
+	}
+}
+
+// drain takes every result the worker is trying to hand back right now.
+func (e *wkEnv) drain() {
 	for {
+		synctest.Wait()
 		select {
 		case r := <-e.results:
 			k := wmVerdictKind(r.err)
 			if k > 3 {
 				k = -1
 			}
+			if k == 1 && time.Since(e.tArm) < wkTimeout {
+				e.early = 1
+			}
 			e.res = append(e.res, k)
+			e.working = false
 			continue
 		default:
 		}
-		break
+		return
 	}
+}
+
+func (e *wkEnv) observe() wkObs {
+	synctest.Wait()
 	o := wkObs{Res: append([]int{}, e.res...), Queued: int(atomic.LoadInt32(&e.peer.queued)),
 		Handled: int(atomic.LoadInt32(&e.handled)), Fin: int(atomic.LoadInt32(&e.fin)), Early: e.early}
-	select {
-	case <-e.done:
+	if e.exited() {
 		o.Exited = 1
-	default:
 	}
 	return o
 }
 
-// waitResult waits until one more result has been handed back.
-func (e *wkEnv) waitResult(d time.Duration) bool {
+// offer hands m to the worker if it is waiting for a message right now.
+func (e *wkEnv) offer(m wire.Message) bool {
+	synctest.Wait()
 	select {
-	case r := <-e.results:
-		k := wmVerdictKind(r.err)
-		if k > 3 {
-			k = -1
-		}
-		e.res = append(e.res, k)
+	case e.peer.msgs <- m:
 		return true
-	case <-time.After(d):
+	default:
 		return false
 	}
 }
 
-func (e *wkEnv) lateForShort() bool {
-	return e.working && e.short && time.Since(e.tArm) > e.T*6/10
+func (e *wkEnv) closeQuit() {
+	if !e.quitClosed {
+		e.quitClosed = true
+		close(e.quit)
+	}
 }
 
 func (e *wkEnv) exec(want wkAct) (out wkStepOut, cont bool) {
 	act := want
 	cont = true
 	n0 := len(e.res)
-	exited0 := false
-	select {
-	case <-e.done:
-		exited0 = true
-	default:
-	}
-	wasShort := e.working && e.short
-	waitsOut := want.Op == "Timeout" || (want.Op == "QuitDuring" && want.X == 4)
-	if !waitsOut && e.lateForShort() {
-		e.timing = true
-		return out, false
+	exited0 := e.exited()
+	hang := func(why string) {
+		act.Res = "hang"
+		out.Dump = why + "\n" + wkDump()
+		cont = false
 	}
 	switch want.Op {
 	case "Job":
@@ -158,14 +173,9 @@ func (e *wkEnv) exec(want wkAct) (out wkStepOut, cont bool) {
 		} else if want.Y == 2 {
 			close(e.ic)
 		}
-		to := time.Hour
-		if want.X == 1 {
-			to = e.T
-		}
 		req := &Request{Req: &wire.MsgPing{}}
 		req.HandleResp = func(_, resp wire.Message, _ string) Progress {
 			atomic.AddInt32(&e.handled, 1)
-			defer func() { e.hsig <- struct{}{} }()
 			ping, _ := resp.(*wire.MsgPing)
 			switch {
 			case ping != nil && ping.Nonce == 2:
@@ -179,162 +189,81 @@ func (e *wkEnv) exec(want wkAct) (out wkStepOut, cont bool) {
 			}
 			return Progress{}
 		}
-		job := &queryJob{index: uint64(n0), timeout: to, cancelChan: e.cancel,
+		job := &queryJob{index: uint64(n0), timeout: wkTimeout, cancelChan: e.cancel,
 			internalCancelChan: e.ic, Request: req}
+		synctest.Wait()
 		e.tArm = time.Now()
 		select {
 		case e.w.nextJob <- job:
-		case <-time.After(e.hang):
-			act.Res = "hang"
-			out.Dump = "worker does not take the job"
-			cont = false
-		}
-		if cont && want.Y == 0 {
-			select {
-			case <-e.peer.qsig:
-				e.working, e.short = true, want.X == 1
-			case <-e.results:
-				out.Note = "result instead of a queued request"
-				cont = false
-			case <-time.After(e.hang):
-				act.Res = "hang"
-				cont = false
-			}
-		} else if cont {
-			if !e.waitResult(e.hang) {
-				act.Res = "hang"
-				cont = false
-			}
+			e.working = true
+		default:
+			hang("worker does not take the job")
 		}
 	case "Msg":
-		t := time.Now()
-		select {
-		case e.peer.msgs <- &wire.MsgPing{Nonce: uint64(want.X)}:
-			if e.working {
-				select {
-				case <-e.hsig:
-				case <-time.After(e.hang):
-				}
-				if want.X == 1 {
-					e.tArm = t
-				}
-				if want.X == 2 {
-					if !e.waitResult(e.hang) {
-						act.Res = "hang"
-						cont = false
-					}
-					e.working = false
-				}
-			}
-		case r := <-e.results:
-			// the worker hands back a result instead of taking the message
-			k := wmVerdictKind(r.err)
-			if k > 3 {
-				k = -1
-			}
-			e.res = append(e.res, k)
-			if wasShort {
-				e.timing = true
-				return out, false
-			}
-			e.working = false
-		case <-time.After(e.hang):
-			act.Res = "hang"
-			cont = false
+		if !e.offer(&wire.MsgPing{Nonce: uint64(want.X)}) {
+			// the worker is not waiting for messages: it may be trying to
+			// hand back a result, which the drain below records
+			out.Note = "message not taken"
+		} else if e.working && want.X == 1 {
+			e.tArm = time.Now()
 		}
-	case "Timeout":
-		if !e.waitResult(e.hang + e.T) {
-			act.Res = "hang"
-			cont = false
-		} else if time.Since(e.tArm) < e.T {
-			e.early = 1
-		}
-		e.working = false
+	case "Tick":
+		time.Sleep(wkTimeout / 2)
 	case "Disconnect":
 		close(e.peer.disc)
-		if e.working {
-			e.waitResult(e.hang)
-		}
-		select {
-		case <-e.done:
-		case <-time.After(e.hang):
-		}
-		e.working = false
 	case "Cancel":
 		if want.X == 1 {
 			close(e.cancel)
 		} else {
 			close(e.ic)
 		}
-		if !e.waitResult(e.hang) {
-			act.Res = "hang"
-			cont = false
-		}
-		e.working = false
 	case "QuitDuring":
 		// Nobody receives results any more.  Bring the worker to the point
 		// where it has a result to hand back, close quit, expect Run to return.
 		switch want.X {
 		case 0:
 			e.gate = make(chan struct{})
-			select {
-			case e.peer.msgs <- &wire.MsgPing{Nonce: 2}:
-				close(e.quit) // while the handler is still running
+			if e.offer(&wire.MsgPing{Nonce: 2}) {
+				synctest.Wait() // the handler is running (waiting at the gate)
+				e.closeQuit()
 				close(e.gate)
-				<-e.hsig
-			case <-time.After(e.hang):
-				close(e.quit)
 			}
 		case 1:
-			select {
-			case e.peer.msgs <- &wire.MsgPing{Nonce: 2}:
-				<-e.hsig
-			case <-time.After(e.hang):
-			}
-			time.Sleep(2 * time.Millisecond)
-			close(e.quit)
+			e.offer(&wire.MsgPing{Nonce: 2})
 		case 2:
 			close(e.peer.disc)
-			time.Sleep(2 * time.Millisecond)
-			close(e.quit)
 		case 3:
 			close(e.cancel)
-			time.Sleep(2 * time.Millisecond)
-			close(e.quit)
 		case 4:
-			if d := time.Until(e.tArm.Add(e.T + e.T/4 + 2*time.Millisecond)); d > 0 {
+			if d := time.Until(e.tArm.Add(wkTimeout)); d > 0 {
 				time.Sleep(d)
 			}
-			close(e.quit)
 		}
-		select {
-		case <-e.done:
-		case <-time.After(e.hang):
-			act.Res = "hang"
-			out.Dump = wkDump()
-			cont = false
+		synctest.Wait()
+		e.closeQuit()
+		synctest.Wait()
+		if !e.exited() {
+			hang("Run has not returned although quit is closed")
 		}
-		e.working = false
 	case "Quit":
-		close(e.quit)
-		select {
-		case <-e.done:
-		case <-time.After(e.hang):
+		e.closeQuit()
+		synctest.Wait()
+		if !e.exited() {
+			hang("Run has not returned although quit is closed")
 		}
-		e.working = false
 	}
-	// A short job timeout must not have been able to expire inside a step
-	// that is not the Timeout step: otherwise this attempt is void.
-	if !waitsOut && !(want.Op == "QuitDuring" && act.Res == "hang") && (wasShort || (e.working && e.short)) && time.Since(e.tArm) > e.T*8/10 {
-		e.timing = true
-		return out, false
-	}
+	e.drain() // (after QuitDuring this only releases a worker that hangs in the send)
 	out.Obs = e.observe()
+	if act.Res == "hang" && (want.Op == "Quit" || want.Op == "QuitDuring") {
+		// what was observed: Run had not returned (the drain above released it)
+		out.Obs.Exited = 0
+	}
 	if act.Res != "hang" {
 		switch {
 		case len(e.res) > n0:
-			act.Res = "r" + string(rune('0'+max(e.res[len(e.res)-1], 0)))
-			if e.res[len(e.res)-1] < 0 {
+			if k := e.res[len(e.res)-1]; k >= 0 {
+				act.Res = "r" + string(rune('0'+k))
+			} else {
 				act.Res = "r?"
 			}
 		case out.Obs.Exited == 1 && !exited0:
@@ -364,29 +293,33 @@ func wkDump() string {
 	return s
 }
 
-func wkRunPath(p *wkPathIn, T, hang time.Duration) (out wkPathOut, timing bool) {
+// wkRunPath must be called inside a synctest bubble.
+func wkRunPath(p *wkPathIn) (out wkPathOut) {
 	out.ID = p.ID
 	e := &wkEnv{
-		peer:    &wkPeer{msgs: make(chan wire.Message), disc: make(chan struct{}), qsig: make(chan struct{}, 8)},
+		peer:    &wkPeer{msgs: make(chan wire.Message), disc: make(chan struct{})},
 		results: make(chan *jobResult), quit: make(chan struct{}), done: make(chan struct{}),
-		hsig: make(chan struct{}, 8), T: T, hang: hang,
 	}
 	e.w = NewWorker(e.peer).(*worker)
 	go func() { defer close(e.done); e.w.Run(e.results, e.quit) }()
 	defer func() {
-		select {
-		case <-e.quit:
-		default:
-			close(e.quit)
+		// let every goroutine of the bubble end
+		e.closeQuit()
+		if e.gate != nil {
+			select {
+			case <-e.gate:
+			default:
+				close(e.gate)
+			}
+		}
+		for i := 0; i < 8 && !e.exited(); i++ {
+			e.drain()
 		}
 	}()
 	out.InitObs = e.observe()
 	out.Steps = []wkStepOut{}
 	for _, s := range p.Steps {
 		so, cont := e.exec(s.Act)
-		if e.timing {
-			return out, true
-		}
 		out.Steps = append(out.Steps, so)
 		if !cont || so.Act != s.Act {
 			break
@@ -400,8 +333,6 @@ func TestVerifWorkerReplay(t *testing.T) {
 	if in == "" || outFn == "" {
 		t.Skip("VERIF_PATHS / VERIF_OUT not set")
 	}
-	hang := wmEnvDur("VERIF_HANG_MS", 1500*time.Millisecond)
-	T := wmEnvDur("VERIF_WORKER_TIMEOUT_MS", 40*time.Millisecond)
 	f, err := os.Open(in)
 	if err != nil {
 		t.Fatal(err)
@@ -418,34 +349,12 @@ func TestVerifWorkerReplay(t *testing.T) {
 		paths = append(paths, p)
 	}
 	results := make([]wkPathOut, len(paths))
-	var wg sync.WaitGroup
-	jobs := make(chan int)
-	for w := 0; w < runtime.NumCPU()*4; w++ {
-		wg.Add(1)
-		go func() {
-			defer wg.Done()
-			for i := range jobs {
-				tt := T
-				for try := 0; ; try++ {
-					r, timing := wkRunPath(paths[i], tt, hang)
-					if timing && try < 4 {
-						tt *= 3
-						continue
-					}
-					if timing {
-						r.Error = "job timeout could not be timed (machine too slow)"
-					}
-					results[i] = r
-					break
-				}
-			}
-		}()
-	}
 	for i := range paths {
-		jobs <- i
+		i := i
+		synctest.Test(t, func(t *testing.T) {
+			results[i] = wkRunPath(paths[i])
+		})
 	}
-	close(jobs)
-	wg.Wait()
 	of, err := os.Create(outFn)
 	if err != nil {
 		t.Fatal(err)
